@@ -4,10 +4,19 @@
   * `Tok.spell`   : the text of a token; `tokOk lc t`: `t` is a token the lexer can produce.
   * `lexOne_spell`: a good token followed by a rest whose first character cannot extend it
                     (`headOk`) is read back as exactly that token.
-  * `lex_spellPadded` : token lists written with arbitrary white space runs (possibly empty where
+  * `lexRaw_spellPadded` : token lists written with arbitrary white space runs (possibly empty where
                     `headOk` allows it) before every token and trailing white space; the `glued`
-                    flags record exactly the empty runs.
-  * `lex_spellAll`, `lex_extra_space`, `lex_glued_punct` : the corollaries.
+                    flags record exactly the empty runs.  `lexRaw` is the tokenisation proper (keywords
+                    are always keyword tokens).
+  * `lexRaw_spellAll`, `lexRaw_extra_space`, `lexRaw_spellGlue` : the corollaries.
+  * `retagOps` (XPath §3.7, the operator names): `retagOps_cons` (one token at a time: `retagTok`,
+                    `expNext`), `retagOps_length`, `retagOps_glued`, `retagOps_spell`, `retagOps_keeps`
+                    (only operator-name keywords change, and only into the name they spell),
+                    `opsPlaced` / `retagOps_id` (when nothing changes), `retagOps_append`.
+  * `lex_spellPadded`, `lex_extra_space`, `lex_extra_space_zip`, `lex_spellAll`, `lex_spellGlue` : the
+                    same for `lex` (= `lexRaw` followed by `lc.retag`: `retagOps true` when
+                    `lc.opRule`, nothing otherwise); the `…_placed` forms: if no operator-name keyword
+                    stands where an operand is expected (or `lc.opRule = false`), exactly the tokens.
 -/
 import Xsel.Lex
 
@@ -409,6 +418,254 @@ theorem spell_head (lc : LexCfg) (t : Tok) (ht : tokOk lc t = true) :
     · exact ⟨_, _, rfl, not_space_of_nat lc _ (by decide)⟩
   | var s => exact ⟨_, _, rfl, not_space_of_nat lc _ (by decide)⟩
 
+/-! ### the operator names (XPath §3.7): what `lex` does after `lexRaw` -/
+
+/-- `or and div mod` as keyword tokens -/
+def Tok.isOpKw : Tok → Bool
+  | .kw k => k.isOpName
+  | _ => false
+
+/-- the flag "an operand is expected" after token `t`, given the flag before it -/
+def expNext (exp : Bool) : Tok → Bool
+  | .kw k => if k.isOpName then !exp else false
+  | .p .star => !exp
+  | .p x => x.wantsOperand
+  | _ => false
+
+/-- what `retagOps` does to one token: an operator-name keyword where an operand is expected becomes
+    the name it spells -/
+def retagTok (exp : Bool) (t : LTok) : LTok :=
+  match t.tok with
+  | .kw k => if k.isOpName && exp then ⟨.ncname k.chars, t.glued⟩ else t
+  | _ => t
+
+theorem retagOps_nil (exp : Bool) : retagOps exp [] = [] := by simp [retagOps]
+
+/-- `retagOps` token by token -/
+theorem retagOps_cons (exp : Bool) (t : LTok) (ts : List LTok) :
+    retagOps exp (t :: ts) = retagTok exp t :: retagOps (expNext exp t.tok) ts := by
+  obtain ⟨tok, g⟩ := t
+  cases tok with
+  | kw k => cases hk : k.isOpName <;> cases exp <;> simp [retagOps, retagTok, expNext, hk]
+  | p x => cases x <;> simp [retagOps, retagTok, expNext]
+  | _ => simp [retagOps, retagTok, expNext]
+
+/-- the flag after a token list -/
+def expAfter : Bool → List LTok → Bool
+  | exp, [] => exp
+  | exp, t :: ts => expAfter (expNext exp t.tok) ts
+
+/-- no operator-name keyword stands where an operand is expected -/
+def opsPlaced : Bool → List LTok → Bool
+  | _, [] => true
+  | exp, t :: ts => !(t.tok.isOpKw && exp) && opsPlaced (expNext exp t.tok) ts
+
+theorem retagTok_glued (exp : Bool) (t : LTok) : (retagTok exp t).glued = t.glued := by
+  obtain ⟨tok, g⟩ := t
+  cases tok <;> simp [retagTok]
+  split <;> rfl
+
+/-- a retagged token is spelled as before -/
+theorem retagTok_spell (exp : Bool) (t : LTok) : (retagTok exp t).tok.spell = t.tok.spell := by
+  obtain ⟨tok, g⟩ := t
+  cases tok <;> simp [retagTok]
+  split <;> rfl
+
+/-- only operator-name keywords are retagged … -/
+theorem retagTok_of_not_opKw (exp : Bool) (t : LTok) (h : t.tok.isOpKw = false) : retagTok exp t = t := by
+  obtain ⟨tok, g⟩ := t
+  cases tok <;> simp_all [retagTok, Tok.isOpKw]
+
+/-- … and only where an operand is expected -/
+theorem retagTok_of_not_exp (t : LTok) : retagTok false t = t := by
+  obtain ⟨tok, g⟩ := t
+  cases tok <;> simp [retagTok]
+
+/-- … into the name they spell -/
+theorem retagTok_opKw (t : LTok) (k : Kw) (hk : k.isOpName = true) (h : t.tok = .kw k) :
+    retagTok true t = ⟨.ncname k.chars, t.glued⟩ := by
+  obtain ⟨tok, g⟩ := t
+  simp only at h
+  subst h
+  simp [retagTok, hk]
+
+theorem retagOps_length (exp : Bool) (ts : List LTok) : (retagOps exp ts).length = ts.length := by
+  induction ts generalizing exp with
+  | nil => simp [retagOps_nil]
+  | cons t ts ih => simp [retagOps_cons, ih]
+
+/-- the adjacency flags are kept -/
+theorem retagOps_glued (exp : Bool) (ts : List LTok) :
+    (retagOps exp ts).map (·.glued) = ts.map (·.glued) := by
+  induction ts generalizing exp with
+  | nil => simp [retagOps_nil]
+  | cons t ts ih => simp [retagOps_cons, ih, retagTok_glued]
+
+/-- the text of every token is kept -/
+theorem retagOps_spell (exp : Bool) (ts : List LTok) :
+    (retagOps exp ts).map (·.tok.spell) = ts.map (·.tok.spell) := by
+  induction ts generalizing exp with
+  | nil => simp [retagOps_nil]
+  | cons t ts ih => simp [retagOps_cons, ih, retagTok_spell]
+
+/-- every token that is not an operator-name keyword is kept, at its position -/
+theorem retagOps_keeps (exp : Bool) (ts : List LTok) (i : Nat) (t : LTok) (hi : ts[i]? = some t)
+    (h : t.tok.isOpKw = false) : (retagOps exp ts)[i]? = some t := by
+  induction ts generalizing exp i with
+  | nil => simp at hi
+  | cons a ts ih =>
+    rw [retagOps_cons]
+    cases i with
+    | zero =>
+      simp only [List.getElem?_cons_zero, Option.some.injEq] at hi ⊢
+      subst hi
+      exact retagTok_of_not_opKw exp a h
+    | succ i =>
+      simp only [List.getElem?_cons_succ] at hi ⊢
+      exact ih _ i hi
+
+/-- a token that changes was an operator-name keyword and becomes the `ncname` of the same text -/
+theorem retagOps_changes (exp : Bool) (ts : List LTok) (i : Nat) (t t' : LTok) (hi : ts[i]? = some t)
+    (hi' : (retagOps exp ts)[i]? = some t') (hne : t' ≠ t) :
+    ∃ k, k.isOpName = true ∧ t.tok = .kw k ∧ t' = ⟨.ncname k.chars, t.glued⟩ := by
+  induction ts generalizing exp i with
+  | nil => simp at hi
+  | cons a ts ih =>
+    rw [retagOps_cons] at hi'
+    cases i with
+    | zero =>
+      simp only [List.getElem?_cons_zero, Option.some.injEq] at hi hi'
+      subst hi hi'
+      obtain ⟨tok, g⟩ := a
+      cases tok with
+      | kw k =>
+        cases hk : k.isOpName with
+        | false => exact absurd (retagTok_of_not_opKw exp _ (by simp [Tok.isOpKw, hk])) hne
+        | true =>
+          cases exp with
+          | false => exact absurd (retagTok_of_not_exp _) hne
+          | true => exact ⟨k, hk, rfl, retagTok_opKw _ k hk rfl⟩
+      | _ => exact absurd (retagTok_of_not_opKw exp _ rfl) hne
+    | succ i =>
+      simp only [List.getElem?_cons_succ] at hi hi'
+      exact ih _ i hi hi'
+
+/-- **when retagging does nothing** -/
+theorem retagOps_id (exp : Bool) (ts : List LTok) (h : opsPlaced exp ts = true) : retagOps exp ts = ts := by
+  induction ts generalizing exp with
+  | nil => exact retagOps_nil exp
+  | cons t ts ih =>
+    simp only [opsPlaced, Bool.and_eq_true, Bool.not_eq_true', Bool.and_eq_false_iff] at h
+    rw [retagOps_cons, ih _ h.2]
+    rcases h.1 with h1 | h1
+    · rw [retagTok_of_not_opKw exp t h1]
+    · subst h1; rw [retagTok_of_not_exp]
+
+/-- … and conversely: it changes something as soon as an operator name is misplaced -/
+theorem opsPlaced_of_retagOps_id (exp : Bool) (ts : List LTok) (h : retagOps exp ts = ts) :
+    opsPlaced exp ts = true := by
+  induction ts generalizing exp with
+  | nil => rfl
+  | cons t ts ih =>
+    rw [retagOps_cons] at h
+    simp only [List.cons.injEq] at h
+    simp only [opsPlaced, Bool.and_eq_true, Bool.not_eq_true', Bool.and_eq_false_iff]
+    refine ⟨?_, ih _ h.2⟩
+    obtain ⟨tok, g⟩ := t
+    cases tok with
+    | kw k =>
+      cases hk : k.isOpName with
+      | false => exact Or.inl (by simp [Tok.isOpKw, hk])
+      | true =>
+        cases exp with
+        | false => exact Or.inr rfl
+        | true =>
+          have h1 := h.1
+          rw [retagTok_opKw _ k hk rfl] at h1
+          simp at h1
+    | _ => exact Or.inl rfl
+
+theorem retagOps_append (exp : Bool) (a b : List LTok) :
+    retagOps exp (a ++ b) = retagOps exp a ++ retagOps (expAfter exp a) b := by
+  induction a generalizing exp with
+  | nil => simp [retagOps_nil, expAfter]
+  | cons t a ih => simp [retagOps_cons, expAfter, ih]
+
+theorem opsPlaced_append (exp : Bool) (a b : List LTok) :
+    opsPlaced exp (a ++ b) = (opsPlaced exp a && opsPlaced (expAfter exp a) b) := by
+  induction a generalizing exp with
+  | nil => simp [opsPlaced, expAfter]
+  | cons t a ih => simp [opsPlaced, expAfter, ih, Bool.and_assoc]
+
+theorem expAfter_append (exp : Bool) (a b : List LTok) :
+    expAfter exp (a ++ b) = expAfter (expAfter exp a) b := by
+  induction a generalizing exp with
+  | nil => simp [expAfter]
+  | cons t a ih => simp [expAfter, ih]
+
+/-- token lists without operator-name keywords are never changed -/
+theorem opsPlaced_of_no_opKw (exp : Bool) (ts : List LTok) (h : ∀ t ∈ ts, t.tok.isOpKw = false) :
+    opsPlaced exp ts = true := by
+  induction ts generalizing exp with
+  | nil => rfl
+  | cons t ts ih =>
+    simp only [opsPlaced, Bool.and_eq_true, Bool.not_eq_true', Bool.and_eq_false_iff]
+    exact ⟨Or.inl (h t (by simp)), ih _ (fun t ht => h t (by simp [ht]))⟩
+
+/-- what `lex` does to the token list of `lexRaw` -/
+def LexCfg.retag (lc : LexCfg) (ts : List LTok) : List LTok :=
+  if lc.opRule then retagOps true ts else ts
+
+theorem lex_eq (lc : LexCfg) (cs : Chars) :
+    lex lc cs = match lexRaw lc cs with | .ok ts => .ok (lc.retag ts) | r => r := rfl
+
+theorem lex_of_lexRaw {lc : LexCfg} {cs : Chars} {ts : List LTok} (h : lexRaw lc cs = .ok ts) :
+    lex lc cs = .ok (lc.retag ts) := by
+  rw [lex_eq, h]
+
+theorem lex_err_of_lexRaw {lc : LexCfg} {cs : Chars} (h : lexRaw lc cs = .err) : lex lc cs = .err := by
+  rw [lex_eq, h]
+
+theorem lex_unsup_of_lexRaw {lc : LexCfg} {cs : Chars} (h : lexRaw lc cs = .unsup) :
+    lex lc cs = .unsup := by
+  rw [lex_eq, h]
+
+theorem retag_of_opRule_false {lc : LexCfg} (h : lc.opRule = false) (ts : List LTok) :
+    lc.retag ts = ts := by
+  simp [LexCfg.retag, h]
+
+theorem retag_of_opRule_true {lc : LexCfg} (h : lc.opRule = true) (ts : List LTok) :
+    lc.retag ts = retagOps true ts := by
+  simp [LexCfg.retag, h]
+
+/-- nothing changes when the rule is off or no operator name is misplaced -/
+theorem retag_of_placed {lc : LexCfg} {ts : List LTok} (h : lc.opRule = true → opsPlaced true ts = true) :
+    lc.retag ts = ts := by
+  unfold LexCfg.retag
+  split
+  · next ho => exact retagOps_id true ts (h ho)
+  · rfl
+
+theorem retag_length (lc : LexCfg) (ts : List LTok) : (lc.retag ts).length = ts.length := by
+  unfold LexCfg.retag; split
+  · exact retagOps_length true ts
+  · rfl
+
+theorem retag_glued (lc : LexCfg) (ts : List LTok) : (lc.retag ts).map (·.glued) = ts.map (·.glued) := by
+  unfold LexCfg.retag; split
+  · exact retagOps_glued true ts
+  · rfl
+
+theorem retag_spell (lc : LexCfg) (ts : List LTok) :
+    (lc.retag ts).map (·.tok.spell) = ts.map (·.tok.spell) := by
+  unfold LexCfg.retag; split
+  · exact retagOps_spell true ts
+  · rfl
+
+theorem retag_lexModel (ts : List LTok) : lexModel.retag ts = retagOps true ts := rfl
+
+theorem retag_lexSpec (ts : List LTok) : lexSpec.retag ts = ts := rfl
+
 /-! ### the whole input -/
 
 /-- white space runs `w` before every token, `trail` at the end -/
@@ -499,11 +756,25 @@ theorem lexAll_padded (lc : LexCfg) (trail : Chars) :
 /-- **round trip**, general form: arbitrary white space runs before the tokens (empty where the
     next character cannot extend the token), trailing white space; the `glued` flags are exactly
     the empty runs -/
+theorem lexRaw_spellPadded (lc : LexCfg) (items : List (Chars × Tok)) (trail : Chars)
+    (h : padOk lc items trail = true) :
+    lexRaw lc (spellPadded items trail) = .ok (padToks false items) := by
+  have := lexAll_padded lc trail items ((spellPadded items trail).length + 1) false [] h (Nat.le_refl _)
+  simpa [lexRaw] using this
+
+/-- the same for `lex`: the operator names are then retagged (`lc.retag`: `retagOps true` when
+    `lc.opRule`, nothing otherwise) -/
 theorem lex_spellPadded (lc : LexCfg) (items : List (Chars × Tok)) (trail : Chars)
     (h : padOk lc items trail = true) :
+    lex lc (spellPadded items trail) = .ok (lc.retag (padToks false items)) :=
+  lex_of_lexRaw (lexRaw_spellPadded lc items trail h)
+
+/-- … exactly the tokens, when no operator name stands where an operand is expected -/
+theorem lex_spellPadded_placed (lc : LexCfg) (items : List (Chars × Tok)) (trail : Chars)
+    (h : padOk lc items trail = true)
+    (hp : lc.opRule = true → opsPlaced true (padToks false items) = true) :
     lex lc (spellPadded items trail) = .ok (padToks false items) := by
-  have := lexAll_padded lc trail items ((spellPadded items trail).length + 1) false [] h (Nat.le_refl _)
-  simpa [lex] using this
+  rw [lex_spellPadded lc items trail h, retag_of_placed hp]
 
 /-! ### corollaries -/
 
@@ -555,20 +826,34 @@ theorem padToks_of_nonempty (items : List (Chars × Tok)) (h : ∀ it ∈ items,
 
 /-- **white space insensitivity**: every token is preceded by a non-empty run of white space
     (any characters with `isSpace lc`), the input may end in white space -/
+theorem lexRaw_extra_space (lc : LexCfg) (items : List (Chars × Tok)) (trail : Chars)
+    (h : ∀ it ∈ items, it.1 ≠ [] ∧ (∀ c ∈ it.1, isSpace lc c = true) ∧ tokOk lc it.2 = true)
+    (htr : ∀ c ∈ trail, isSpace lc c = true) :
+    lexRaw lc (spellPadded items trail) = .ok (items.map (fun it => ⟨it.2, false⟩)) := by
+  rw [lexRaw_spellPadded lc items trail (padOk_of_nonempty lc trail htr items h),
+    padToks_of_nonempty items (fun it hi => (h it hi).1)]
+
+/-- the same for `lex` (operator names retagged when `lc.opRule`) -/
 theorem lex_extra_space (lc : LexCfg) (items : List (Chars × Tok)) (trail : Chars)
     (h : ∀ it ∈ items, it.1 ≠ [] ∧ (∀ c ∈ it.1, isSpace lc c = true) ∧ tokOk lc it.2 = true)
     (htr : ∀ c ∈ trail, isSpace lc c = true) :
+    lex lc (spellPadded items trail) = .ok (lc.retag (items.map (fun it => ⟨it.2, false⟩))) :=
+  lex_of_lexRaw (lexRaw_extra_space lc items trail h htr)
+
+theorem lex_extra_space_placed (lc : LexCfg) (items : List (Chars × Tok)) (trail : Chars)
+    (h : ∀ it ∈ items, it.1 ≠ [] ∧ (∀ c ∈ it.1, isSpace lc c = true) ∧ tokOk lc it.2 = true)
+    (htr : ∀ c ∈ trail, isSpace lc c = true)
+    (hp : lc.opRule = true → opsPlaced true (items.map (fun it => (⟨it.2, false⟩ : LTok))) = true) :
     lex lc (spellPadded items trail) = .ok (items.map (fun it => ⟨it.2, false⟩)) := by
-  rw [lex_spellPadded lc items trail (padOk_of_nonempty lc trail htr items h),
-    padToks_of_nonempty items (fun it hi => (h it hi).1)]
+  rw [lex_extra_space lc items trail h htr, retag_of_placed hp]
 
 /-- the same with the runs and the tokens as two lists -/
-theorem lex_extra_space_zip (lc : LexCfg) (ws : List Chars) (ts : List Tok) (trail : Chars)
+theorem lexRaw_extra_space_zip (lc : LexCfg) (ws : List Chars) (ts : List Tok) (trail : Chars)
     (hlen : ws.length = ts.length)
     (hws : ∀ w ∈ ws, w ≠ [] ∧ ∀ c ∈ w, isSpace lc c = true)
     (hts : ∀ t ∈ ts, tokOk lc t = true) (htr : ∀ c ∈ trail, isSpace lc c = true) :
-    lex lc (spellPadded (ws.zip ts) trail) = .ok (ts.map (fun t => ⟨t, false⟩)) := by
-  rw [lex_extra_space lc (ws.zip ts) trail ?_ htr]
+    lexRaw lc (spellPadded (ws.zip ts) trail) = .ok (ts.map (fun t => ⟨t, false⟩)) := by
+  rw [lexRaw_extra_space lc (ws.zip ts) trail ?_ htr]
   · congr 1
     have : (ws.zip ts).map (fun it => (⟨it.2, false⟩ : LTok)) =
         ((ws.zip ts).map Prod.snd).map (fun t => ⟨t, false⟩) := by simp [List.map_map]
@@ -578,14 +863,30 @@ theorem lex_extra_space_zip (lc : LexCfg) (ws : List Chars) (ts : List Tok) (tra
     have h1 := hws it.1 (List.of_mem_zip hi).1
     exact ⟨h1.1, h1.2, hts it.2 (List.of_mem_zip hi).2⟩
 
+/-- the same for `lex` (operator names retagged when `lc.opRule`) -/
+theorem lex_extra_space_zip (lc : LexCfg) (ws : List Chars) (ts : List Tok) (trail : Chars)
+    (hlen : ws.length = ts.length)
+    (hws : ∀ w ∈ ws, w ≠ [] ∧ ∀ c ∈ w, isSpace lc c = true)
+    (hts : ∀ t ∈ ts, tokOk lc t = true) (htr : ∀ c ∈ trail, isSpace lc c = true) :
+    lex lc (spellPadded (ws.zip ts) trail) = .ok (lc.retag (ts.map (fun t => ⟨t, false⟩))) :=
+  lex_of_lexRaw (lexRaw_extra_space_zip lc ws ts trail hlen hws hts htr)
+
+theorem lex_extra_space_zip_placed (lc : LexCfg) (ws : List Chars) (ts : List Tok) (trail : Chars)
+    (hlen : ws.length = ts.length)
+    (hws : ∀ w ∈ ws, w ≠ [] ∧ ∀ c ∈ w, isSpace lc c = true)
+    (hts : ∀ t ∈ ts, tokOk lc t = true) (htr : ∀ c ∈ trail, isSpace lc c = true)
+    (hp : lc.opRule = true → opsPlaced true (ts.map (fun t => (⟨t, false⟩ : LTok))) = true) :
+    lex lc (spellPadded (ws.zip ts) trail) = .ok (ts.map (fun t => ⟨t, false⟩)) := by
+  rw [lex_extra_space_zip lc ws ts trail hlen hws hts htr, retag_of_placed hp]
+
 theorem spellAll_eq (ts : List Tok) : spellAll ts = spellPadded (ts.map (fun t => ([' '], t))) [] := by
   simp [spellAll, spellPadded, List.flatMap_map]
 
 /-- **round trip**: the lexer reads back a list of good tokens written with one space before
     every token -/
-theorem lex_spellAll (lc : LexCfg) (ts : List Tok) (h : ∀ t ∈ ts, tokOk lc t = true) :
-    lex lc (spellAll ts) = .ok (ts.map (fun t => ⟨t, false⟩)) := by
-  rw [spellAll_eq, lex_extra_space lc _ [] ?_ (by simp)]
+theorem lexRaw_spellAll (lc : LexCfg) (ts : List Tok) (h : ∀ t ∈ ts, tokOk lc t = true) :
+    lexRaw lc (spellAll ts) = .ok (ts.map (fun t => ⟨t, false⟩)) := by
+  rw [spellAll_eq, lexRaw_extra_space lc _ [] ?_ (by simp)]
   · simp [List.map_map, Function.comp_def]
   · intro it hi
     simp only [List.mem_map] at hi
@@ -595,6 +896,16 @@ theorem lex_spellAll (lc : LexCfg) (ts : List Tok) (h : ∀ t ∈ ts, tokOk lc t
     simp at hc; subst hc
     cases lc with
     | mk u x => cases x <;> rfl
+
+/-- the same for `lex` (operator names retagged when `lc.opRule`) -/
+theorem lex_spellAll (lc : LexCfg) (ts : List Tok) (h : ∀ t ∈ ts, tokOk lc t = true) :
+    lex lc (spellAll ts) = .ok (lc.retag (ts.map (fun t => ⟨t, false⟩))) :=
+  lex_of_lexRaw (lexRaw_spellAll lc ts h)
+
+theorem lex_spellAll_placed (lc : LexCfg) (ts : List Tok) (h : ∀ t ∈ ts, tokOk lc t = true)
+    (hp : lc.opRule = true → opsPlaced true (ts.map (fun t => (⟨t, false⟩ : LTok))) = true) :
+    lex lc (spellAll ts) = .ok (ts.map (fun t => ⟨t, false⟩)) := by
+  rw [lex_spellAll lc ts h, retag_of_placed hp]
 
 /-! ### glued tokens -/
 
@@ -685,9 +996,9 @@ theorem padToks_glue (items : List (Bool × Tok)) :
 
 /-- **glued tokens**: white space between two tokens may be left out when the second cannot be
     taken for a continuation of the first; the `glued` flag records it -/
-theorem lex_spellGlue (lc : LexCfg) (items : List (Bool × Tok)) (h : glueAllOk lc items = true) :
-    lex lc (spellGlue items) = .ok (glueToks items) := by
-  rw [spellGlue_eq, lex_spellPadded lc _ [] (padOk_glue lc items h)]
+theorem lexRaw_spellGlue (lc : LexCfg) (items : List (Bool × Tok)) (h : glueAllOk lc items = true) :
+    lexRaw lc (spellGlue items) = .ok (glueToks items) := by
+  rw [spellGlue_eq, lexRaw_spellPadded lc _ [] (padOk_glue lc items h)]
   cases items with
   | nil => rfl
   | cons it rest =>
@@ -696,6 +1007,17 @@ theorem lex_spellGlue (lc : LexCfg) (items : List (Bool × Tok)) (h : glueAllOk 
     simp only [glueItems, List.map_cons, padToks, glueToks] at this ⊢
     rw [this]
     simp
+
+/-- the same for `lex` (operator names retagged when `lc.opRule`) -/
+theorem lex_spellGlue (lc : LexCfg) (items : List (Bool × Tok)) (h : glueAllOk lc items = true) :
+    lex lc (spellGlue items) = .ok (lc.retag (glueToks items)) :=
+  lex_of_lexRaw (lexRaw_spellGlue lc items h)
+
+/-- … exactly the tokens, when no operator name stands where an operand is expected -/
+theorem lex_spellGlue_placed (lc : LexCfg) (items : List (Bool × Tok)) (h : glueAllOk lc items = true)
+    (hp : lc.opRule = true → opsPlaced true (glueToks items) = true) :
+    lex lc (spellGlue items) = .ok (glueToks items) := by
+  rw [lex_spellGlue lc items h, retag_of_placed hp]
 
 /-- punctuation that no following text can extend: everything but `/ : . < >` -/
 theorem glueOk_punct (x : Punct) (t' : Tok)
@@ -749,6 +1071,13 @@ example : lex lexSpec (spellAll [.ncname ['a'], .p .slash, .kw (.axis .child), .
       .p .star, .digits ['1','0'], .lit false ['x'], .var ['n']].map (fun t => ⟨t, false⟩)) :=
   lex_spellAll lexSpec _ (by decide)
 
+/-- … and for xsel's lexer, where the operator-name rule is on: there is no operator name here -/
+example : lex lexModel (spellAll [.ncname ['a'], .p .slash, .kw (.axis .child), .p .coloncolon,
+      .p .star, .digits ['1','0'], .lit false ['x'], .var ['n']]) =
+    .ok ([.ncname ['a'], .p .slash, .kw (.axis .child), .p .coloncolon,
+      .p .star, .digits ['1','0'], .lit false ['x'], .var ['n']].map (fun t => ⟨t, false⟩)) :=
+  lex_spellAll_placed lexModel _ (by decide) (by decide)
+
 /-- `child::a[@b='x']//c` without any white space -/
 example : spellGlue [(false, .kw (.axis .child)), (false, .p .coloncolon), (false, .ncname ['a']),
       (false, .p .lbrack), (false, .p .at), (false, .ncname ['b']), (false, .p .eq),
@@ -767,16 +1096,49 @@ example : glueOk (.p .slash) (.p .slash) = false := by decide
 example : glueOk (.ncname ['a']) (.digits ['1']) = false := by decide
 example : lex lexModel "a 1".toList = .ok [⟨.ncname ['a'], false⟩, ⟨.digits ['1'], false⟩] := rfl
 example : lex lexModel "a1".toList = .ok [⟨.ncname ['a', '1'], false⟩] := rfl
-/-- runs of tabs, line ends and (for xsel's lexer) U+00A0, trailing white space -/
-example : lex lexModel (spellPadded [(['\t', '\n'], .ncname ['a']), ([' ', '\u00a0'], .p .slash),
+/-- runs of tabs, line ends and blanks, trailing white space -/
+example : lex lexModel (spellPadded [(['\t', '\n'], .ncname ['a']), ([' ', '\r'], .p .slash),
       (['\r'], .ncname ['b'])] [' ', ' ']) =
     .ok [⟨.ncname ['a'], false⟩, ⟨.p .slash, false⟩, ⟨.ncname ['b'], false⟩] :=
-  lex_extra_space lexModel _ _ (by decide) (by decide)
+  lex_extra_space_placed lexModel _ _ (by decide) (by decide) (by decide)
+/-- U+00A0 is white space for Go's `unicode.IsSpace` (a lexer with `xmlSpace = false`), not for XML:
+    neither xsel nor XPath 1.0 separates tokens with it -/
+example : lex ⟨false, false, true⟩ (spellPadded [(['\t', '\n'], .ncname ['a']), ([' ', '\u00a0'], .p .slash),
+      (['\r'], .ncname ['b'])] [' ', ' ']) =
+    .ok [⟨.ncname ['a'], false⟩, ⟨.p .slash, false⟩, ⟨.ncname ['b'], false⟩] :=
+  lex_extra_space_placed _ _ _ (by decide) (by decide) (by decide)
 example : lex lexSpec ['a', '\u00a0', 'b'] = .err := rfl
+example : lex lexModel ['a', '\u00a0', 'b'] = .err := rfl
 /-- empty runs: `a/b` has glued tokens -/
 example : lex lexSpec (spellPadded [([], .ncname ['a']), ([], .p .slash), ([], .ncname ['b'])] []) =
     .ok [⟨.ncname ['a'], false⟩, ⟨.p .slash, true⟩, ⟨.ncname ['b'], true⟩] :=
   lex_spellPadded lexSpec _ _ (by decide)
-example : lex lexModel " div".toList = .ok [⟨.kw .div, false⟩] := rfl
+/-- the operator names: always keyword tokens for `lexRaw`; for `lex lexModel` names where an operand
+    is expected (at the start, after an operator, after `/`, `::`, `@`, `(`, `[`, `,`), operators
+    after an operand; `lexSpec` leaves the decision to the parser -/
+example : lexRaw lexModel " div".toList = .ok [⟨.kw .div, false⟩] := rfl
+example : lex lexModel " div".toList = .ok [⟨.ncname ['d','i','v'], false⟩] := rfl
+example : lex lexSpec " div".toList = .ok [⟨.kw .div, false⟩] := rfl
+example : lex lexModel "a div div".toList =
+    .ok [⟨.ncname ['a'], false⟩, ⟨.kw .div, false⟩, ⟨.ncname ['d','i','v'], false⟩] := rfl
+example : lex lexModel "div div div div div".toList =
+    .ok [⟨.ncname ['d','i','v'], false⟩, ⟨.kw .div, false⟩, ⟨.ncname ['d','i','v'], false⟩,
+         ⟨.kw .div, false⟩, ⟨.ncname ['d','i','v'], false⟩] := rfl
+example : lex lexModel "//or/@and[mod]".toList =
+    .ok [⟨.p .dslash, false⟩, ⟨.ncname ['o','r'], true⟩, ⟨.p .slash, true⟩, ⟨.p .at, true⟩,
+         ⟨.ncname ['a','n','d'], true⟩, ⟨.p .lbrack, true⟩, ⟨.ncname ['m','o','d'], true⟩,
+         ⟨.p .rbrack, true⟩] := rfl
+/-- `*` toggles like an operator name: `* * *` is name test, times, name test; so after `* *` an
+    operator name is a name, after `*` an operator -/
+example : lex lexModel "* * mod".toList =
+    .ok [⟨.p .star, false⟩, ⟨.p .star, false⟩, ⟨.ncname ['m','o','d'], false⟩] := rfl
+example : lex lexModel "* mod *".toList =
+    .ok [⟨.p .star, false⟩, ⟨.kw .mod, false⟩, ⟨.p .star, false⟩] := rfl
+/-- through the theorems: the general form says what is retagged, `opsPlaced` when nothing is -/
+example : lex lexModel (spellAll [.kw .div, .kw .div, .kw .div]) =
+    .ok [⟨.ncname ['d','i','v'], false⟩, ⟨.kw .div, false⟩, ⟨.ncname ['d','i','v'], false⟩] :=
+  lex_spellAll lexModel _ (by decide)
+example : opsPlaced true [⟨.kw .div, false⟩] = false ∧
+    opsPlaced true [⟨.ncname ['a'], false⟩, ⟨.kw .div, false⟩, ⟨.ncname ['b'], false⟩] = true := by decide
 
 end Xsel.Syntax
